@@ -121,6 +121,7 @@ class Ctx:
         self.known_hits: dict[str, dict] = {}
         self.violations: dict[str, dict] = {}  # key -> first case
         self.violation_count = 0
+        self.deferred_errors: list[str] = []
 
     # ---- reporting -------------------------------------------------------
     def report(self, key: str, what: str, case):
@@ -141,6 +142,10 @@ class Ctx:
                 self.report(v[0], v[1], v[2])
             else:
                 self.report(v[0], v[1], case)
+
+    def defer_harness_error(self, msg: str):
+        """A harness inconsistency that only matters if the run ends without any violation."""
+        self.deferred_errors.append(msg)
 
     def sample(self, s, limit=6):
         if len(self.samples) < limit:
